@@ -1714,6 +1714,11 @@ func (c *Ctx) feedersGuarded(e termEdge) string {
 				}
 				g := c.guardOf(fn, b, x.Value)
 				if g == nil {
+					// the value and its guard may both sit in a helper of the receiver that hands the value out
+					if gs := c.guardedInHelper(fn, x.Value); len(gs) > 0 {
+						guards = append(guards, gs...)
+						continue
+					}
 					return ""
 				}
 				if !c.guardSelectsLikeUnserialize(g) {
@@ -1770,6 +1775,39 @@ func (c *Ctx) feedersGuarded(e termEdge) string {
 		why += "; " + strings.Join(callees, ", ") + " stores into it only for struct fields that are neither pointers nor interfaces"
 	}
 	return why + ". That the walk covers the way the recursion takes, and that built values nest no deeper than the Go struct types, is confirmed by reading, not by the checker"
+}
+
+// guardedInHelper: v is a result of a helper that fn calls on its own receiver, and on every way out of the helper that
+// hands out a value of the schema in that position the value is guarded there as clause (a) demands (with (c), (d) and
+// (e) for the guard). Returns the guards, nil if some such way out is not guarded.
+func (c *Ctx) guardedInHelper(fn *ssa.Function, v ssa.Value) []string {
+	if mi, ok := v.(*ssa.MakeInterface); ok {
+		v = mi.X
+	}
+	call, idx, isCall := core.CallResult(v)
+	if !isCall || len(fn.Params) == 0 || len(call.Call.Args) == 0 || call.Call.Args[0] != ssa.Value(fn.Params[0]) {
+		return nil
+	}
+	h := core.StaticBody(&call.Call)
+	if h == nil || h == fn || h.Pkg != fn.Pkg || len(h.Params) == 0 || idx >= h.Signature.Results().Len() {
+		return nil
+	}
+	var guards []string
+	for _, r := range core.ReturnsOf(h) {
+		rv := r.Val(idx)
+		if k, isConst := rv.(*ssa.Const); isConst && k.IsNil() {
+			continue
+		}
+		if !reachedFrom(rv, h.Params[0], 0) {
+			continue
+		}
+		g := c.guardOf(h, r.Key(), rv)
+		if g == nil || !c.guardSelectsLikeUnserialize(g) || !c.guardSharesWithUnserialize(h, g, rv) {
+			return nil
+		}
+		guards = append(guards, c.M.Key(g)+" (in "+c.M.Key(h)+")")
+	}
+	return guards
 }
 
 // guardOf: the bool function G whose false outcome, for a call with v among its arguments, holds on every path to b -
